@@ -24,6 +24,8 @@ def classify(fn):
 def make_f(k):
     cls, fc, vec = k['cls'], k['fc'], k['vec']
     cf = (1.0 + 0.5j) if fc else 1.0
+    if fc == 2 and cls == 'Derivative':
+        cf = np.array([1.0 + 0.5j] + [1.0] * (k['dim'] - 1))       # complex-valued for the first element only
     if cls == 'Derivative':
         if vec or k['dim'] == 1:
             return lambda z: (z * z * z + z * 2.0) * cf
@@ -31,7 +33,7 @@ def make_f(k):
     if cls == 'Jacobian':
         def fj(z):
             a = z[0] * z[0] * cf + z[len(z) - 1] * 3.0
-            b = z[0] * z[len(z) - 1] * cf
+            b = z[0] * z[len(z) - 1] * (cf if fc == 1 else 1.0)       # fc = 2: only the first component is complex-valued
             return np.array([a, b])
         return fj
 
@@ -57,11 +59,19 @@ def run_case(k):
     if c['few']:
         kw['step'] = MinStepGenerator(base_step=0.01, num_steps=1, check_num_steps=False)
     x = np.array([0.5, 1.25, -0.75][:c['dim']])
-    if c['xc']:
+    if c['xc'] == 1:
         x = x + 0.25j
+    elif c['xc'] == 2:
+        x = x + 0.25j * (np.arange(len(x)) == len(x) - 1)        # only the last element is complex
     if c['cls'] == 'Derivative' and c['dim'] == 1:
         x = x[0]
     f = make_f(c)
+    if c['m'] == 'multicomplex' and c['n'] > 2 and c['cls'] == 'Derivative':
+        # history: a legal multicomplex call of the same class of n (mod 4) earlier in the process must not disarm the guard
+        try:
+            nd.Derivative(lambda z: z * z * z, method='multicomplex', n=((c['n'] - 1) % 4) + 1 if ((c['n'] - 1) % 4) + 1 <= 2 else 1)(0.5)
+        except Exception:
+            pass
     def build_and_call():
         if c['via'] == 'setter':
             kw2 = dict(kw, method='forward' if c['m'] != 'forward' else 'central')
